@@ -28,7 +28,16 @@ def consts():
 def gen_points(rng, nmin=2, nmax=9):
     n = rng.randint(nmin, nmax)
     dim = rng.randint(1, 2)
-    if rng.random() < 0.55:
+    r = rng.random()
+    if r < 0.2:
+        # almost-tied data: lattice positions read with a small measurement error (densities of neighbouring samples
+        # then differ by less than 1 on the 1..1000 scale without being equal)
+        # (distinct lattice positions: near-duplicates at distance ~1e-4 fall under note N3, degenerate density range)
+        n = rng.randint(max(nmin, min(6, nmax)), max(nmax, min(12, nmax + 3)))
+        cells = [(a, b) for a in range(4) for b in range(4)]
+        rng.shuffle(cells)
+        X = [[1.0 + a + rng.uniform(-1e-4, 1e-4), 1.0 + b + rng.uniform(-1e-4, 1e-4)] for a, b in cells[:n]]
+    elif r < 0.6:
         X = [[float(rng.randint(0, 2)) for _ in range(dim)] for _ in range(n)]
     else:
         X = [[round(rng.uniform(0, 4), 3) for _ in range(dim)] for _ in range(n)]
